@@ -288,6 +288,26 @@ int main() {
       for (uint32_t i = 0; i < 256; i++) { String sb; Formatter::format_type_id(sb, TypeId(i)); out += std::string(i ? "," : " ") + sb.data(); }
       printf("%s\n", out.c_str());
     }
+    else if (cmd == "DS2") {
+      // two more small tables over their whole domain: the size words of x86 memory operands for sizes 0..255 (text in front of '['), and the
+      // AArch64 vector register text for element types 0..7 on a 64-bit and a 128-bit vector register (id 3)
+      std::string out = "DS2 ";
+      for (uint32_t sz = 0; sz < 256; sz++) {
+        x86::Mem m = x86::ptr(x86::rax); m.set_size(sz);
+        String sb; Formatter::format_operand(sb, FormatFlags::kNone, nullptr, Arch::kX64, m);
+        std::string s0(sb.data()); size_t k = s0.find('[');
+        out += (sz ? "," : "") + (k == std::string::npos ? std::string("<no bracket>") : s0.substr(0, k));
+      }
+      for (RegType rt : { RegType::kVec64, RegType::kVec128 }) {
+        out += "|";
+        for (uint32_t et = 0; et < 8; et++) {
+          a64::Vec v(OperandSignature{Reg::signature_of(rt).bits()}, 3); v.set_element_type(a64::VecElementType(et));
+          String sb; Formatter::format_operand(sb, FormatFlags::kNone, nullptr, Arch::kAArch64, v);
+          out += (et ? "," : "") + std::string(sb.data());
+        }
+      }
+      printf("%s\n", out.c_str());
+    }
     else if (cmd == "DS") {
       // the small name tables of the formatters, over their whole domain: AArch64 condition codes 0..17, shift/extend operators 0..17,
       // data directive words of sizes 1,2,4,8 (x86-64, AArch64), address-size words of x86 memory operands
